@@ -585,3 +585,7 @@ impl PartialOrd<usize> for VarInt {
         self.0.partial_cmp(&(*other as u64))
     }
 }
+
+#[cfg(all(aws_s2n_quic_verif, test))]
+#[path = "/verif/harness/core/varint.rs"]
+mod verif;
